@@ -557,15 +557,20 @@ func C02(c *core.Ctx) {
 	c.Assume = []string{"little-endian host (native byte order of netlink attributes)", "reference table DESIGN Appendix A.1 (checker/internal/rules/reftable.json)"}
 	e := newTabEnv(c)
 	e.checkTables(pdrFarFns, [][2]string{{"CreatePDR", "UpdatePDR"}, {"CreateFAR", "UpdateFAR"}})
+	var bfns []*ssa.Function
 	for _, n := range pdrFarFns {
 		if fn := e.fns[n]; fn != nil {
 			orderIndependence(c, "R4", fn)
+			bfns = append(bfns, fn)
 		}
 	}
+	independentIterations(c, "R4", bfns)
 	for _, n := range []string{"CreatePDR", "UpdatePDR", "RemovePDR", "CreateFAR", "UpdateFAR", "RemoveFAR"} {
 		addressing(c, "R5", n)
 	}
 	handedOn(c, "R5", []string{"PDR", "FAR"})
+	// R7: SDF filter sides: the in-place uplink swap works on an object of its own (shared with C16 R4)
+	flowDescOwned(c, "R7")
 	c.Floor("R2", c.Counts["R2"], 40, "PDR/FAR attribute rows compared")
 	// R6: the apply-action bits written are those of the IE: the decoder the FAR builders call (shared with C19 R3)
 	if m := c.P.Method(pkgReport, "ApplyAction", "Unmarshal"); m != nil {
@@ -608,11 +613,14 @@ func C03(c *core.Ctx) {
 	c.Assume = []string{"little-endian host", "reference table DESIGN Appendix A.1", "accessor value ranges: MBR/GBR 40 bit, notification delay = k*50ms with k <= 255"}
 	e := newTabEnv(c)
 	e.checkTables(qerUrrBarFns, [][2]string{{"CreateQER", "UpdateQER"}, {"CreateURR", "UpdateURR"}, {"CreateBAR", "UpdateBAR"}})
+	var bfns []*ssa.Function
 	for _, n := range qerUrrBarFns {
 		if fn := e.fns[n]; fn != nil {
 			orderIndependence(c, "R4", fn)
+			bfns = append(bfns, fn)
 		}
 	}
+	independentIterations(c, "R4", bfns)
 	for _, n := range []string{"CreateQER", "UpdateQER", "RemoveQER", "CreateURR", "UpdateURR", "RemoveURR", "CreateBAR", "UpdateBAR", "RemoveBAR"} {
 		addressing(c, "R5", n)
 	}
